@@ -424,7 +424,7 @@ func runC10(c *Ctx) {
 	}
 	r.Exhaustive = true
 	for _, port := range []string{"6697", "-1"} {
-		for _, age := range [][2]string{{"1000", "5"}, {"10", "50"}, {"-1", "0"}} {
+		for _, age := range [][2]string{{"1000", "5"}, {"10", "50"}, {"-1", "0"}, {"9223372036854775807", "5"}, {"10000000000", "100"}, {"31536000", "86400"}, {"50", "50"}, {"50", "52"}} {
 			for _, kind := range []string{"fail", "sniff"} {
 				for _, nofb := range []string{"0", "1"} {
 					in := map[string]string{"port": port, "duration": age[0], "receivedago": age[1], "failkind": kind, "nofallback": nofb}
